@@ -32,7 +32,7 @@ def trace_for(built, proof, obligation_id, workdir):
 
 def summarize(steps, limit=400):
     """first and last value per lhs; keep assignments only"""
-    first, last, order = {}, {}, []
+    first, last, order, bits = {}, {}, [], {}
     for s in steps or []:
         if s.get('stepType') != 'assignment':
             continue
@@ -46,10 +46,15 @@ def summarize(steps, limit=400):
         if lhs not in first:
             first[lhs] = val
             order.append(lhs)
+            if v.get('name') == 'float' and v.get('binary'):
+                bits[lhs] = v['binary']
         last[lhs] = val
     out = []
     for l in order[:limit]:
-        out.append({'lhs': l, 'first': first[l], 'last': last[l]})
+        e = {'lhs': l, 'first': first[l], 'last': last[l]}
+        if l in bits:
+            e['first_bits'] = bits[l]
+        out.append(e)
     return out
 
 
